@@ -1148,6 +1148,9 @@ class Epoch(object):
         elif j > 365 and x % 4 > 0:
             j -= 365
             x += 1
+        elif j < 1:
+            x -= 1
+            j += 366 if x % 4 == 0 else 365
 
         # Check if date is in Gregorian calendar. '277' is DOY of October 4th
         if (x > 1582) or (x == 1582 and j > 277):
